@@ -400,6 +400,7 @@ theorem C03_compress_input_nonempty :
 
 /-- The contract is satisfiable and the fuel bound explicit (pass-through oracle: `4·n + 2`). -/
 example : cFuelBound storeContract () 100000 = 400002 := by decide
+example : ([0x2a] : Bytes) ≠ [] := by decide
 
 /-- Repeating the inner loop "until the input chunk is consumed" instead of "while the output
 buffer was filled" is wrong for an oracle that honours the same contract: with more than one
